@@ -59,3 +59,8 @@ ASSUME.update({
          "the removal from needCopy right after queue.Delete is not observable and is folded into the queue.Delete item when a trace is replayed",
          "wall-clock behaviour (queueSyncInterval sleeps) is not modelled; 'eventually' is rounds in the theorem and a deadline in the harness"],
 })
+ASSUME.update({
+ "C16": ["encoding/json (what is a JSON object with which keys), public-key blob lookup/parsing and the OpenPGP signature check are parameters of the model; the harness evaluates them with Go's encoding/json and golang.org/x/crypto/openpgp on the pieces the model's split yields",
+         "unforgeability of OpenPGP signatures is a hypothesis of the tamper theorem (signed_by)",
+         "the signature text produced by Sign is base64 (contains no comma); unicode.IsSpace is modelled on ASCII white space (what can end a UTF-8 JSON text)"],
+})
